@@ -19,6 +19,11 @@ later one, or modify its inputs:
               objects they caught and per-render objects (context, forloop helpers).
   C17-MODULE  module- and class-level mutable containers of ``liquid/`` are never mutated
               from inside a function (only the reviewed memo tables / registries are).
+  C17-HITMISS every ``<env>.loader.load*`` call passes ``globals=<env>.make_globals(...)``: a cache hit
+              (installs the request's globals) and a miss (from_string merges the environment
+              globals) then bind the same mapping.
+  C17-SHARED  no function stores an attribute on an object it took out of a container that outlives
+              the call (a cached template is shared with everyone who obtained it earlier).
   C17-FRESH   ``BoundTemplate.render*`` builds a new context from a *copy* of the render
               arguments (``dict(*args, **kwargs)``) on every call.
 """
@@ -267,7 +272,7 @@ def input_mutations(fn_node, tainted_params: set[str], first_seq_param: str | No
 
 def run(repo: Repo) -> Result:
     res = Result(PID)
-    res.rules = ["C17-MEMO", "C17-INPUT", "C17-AST", "C17-MODULE", "C17-FRESH", "C17-MEMOKEY"]
+    res.rules = ["C17-MEMO", "C17-INPUT", "C17-AST", "C17-MODULE", "C17-FRESH", "C17-MEMOKEY", "C17-HITMISS", "C17-SHARED"]
     res.explanation = "who-may rules over the closed list of state channels: memo sites, input mutation, AST mutation, module/class containers, per-render context creation"
     res.assumptions = [
         "aliasing is tracked intra-procedurally; containers built locally are owned",
@@ -530,6 +535,53 @@ def run(repo: Repo) -> Result:
     from .c23 import check_namespace_key
 
     check_namespace_key(repo, res, "C17-MEMOKEY")
+    # ---- C17-HITMISS: a cache hit and a cache miss bind the same globals ------------------------------
+    # A miss builds the template with ``from_string(source, globals=G)``, which binds
+    # ``env.make_globals(G)`` (environment globals under the request's); a hit skips from_string and
+    # installs ``G`` as is.  The two agree — the output does not depend on whether the template
+    # was requested before — only if every request reaches the loader with globals that are
+    # already merged: each ``<env>.loader.load*(...)`` call passes ``globals=<env>.make_globals(...)``
+    # (make_globals is idempotent).
+    n_load = 0
+    for f in repo.all_functions():
+        for c in calls(f.node, nested=True):
+            if isinstance(c.func, ast.Attribute) and c.func.attr in ("load", "load_async") and text(c.func.value).endswith(".loader"):
+                n_load += 1
+                res.ob(f"hitmiss:{f.qual}")
+                g = next((k.value for k in c.keywords if k.arg == "globals"), None)
+                g = unwrap_await(g) if g is not None else None
+                if not (isinstance(g, ast.Call) and callee_name(g) == "make_globals"):
+                    res.add("C17-HITMISS", f.qual, "unmerged-globals", f"{f.qual} hands `globals={text(g) if g is not None else '<none>'}` to the loader without merging the environment globals first (make_globals): a caching loader installs exactly these on a cache hit, while a miss goes through from_string, which merges — the second request for a template renders without the environment globals the first one saw", f.file, c.lineno)
+    if n_load < 2:
+        raise AnchorMissing(f"only {n_load} `<env>.loader.load*(...)` call sites found (get_template and get_template_async expected)")
+    # ---- C17-SHARED: objects taken from persistent storage are not modified ------------------------------
+    # A parsed template kept in a loader's cache is shared by every holder of it (an earlier
+    # ``get_template`` caller, other threads, later requests).  A function that takes an object out
+    # of a container that outlives the call (``self.<attr>[key]`` / ``.get(key)``) and then stores
+    # an attribute on it changes what those holders render later.
+    n_shared = 0
+    for f in repo.all_functions():
+        origin: dict[str, ast.AST] = {}
+        for st in walk_no_nested(f.node):
+            if isinstance(st, ast.Assign) and len(st.targets) == 1 and isinstance(st.targets[0], ast.Name):
+                v = unwrap_await(st.value)
+                src = None
+                if isinstance(v, ast.Subscript):
+                    src = v.value
+                elif isinstance(v, ast.Call) and isinstance(v.func, ast.Attribute) and v.func.attr in ("get", "setdefault") and v.args:
+                    src = v.func.value
+                if src is not None and isinstance(src, ast.Attribute) and is_name(src.value, "self"):
+                    origin[st.targets[0].id] = src
+        if not origin:
+            continue
+        for st in walk_no_nested(f.node):
+            tgts = st.targets if isinstance(st, ast.Assign) else ([st.target] if isinstance(st, (ast.AugAssign, ast.AnnAssign)) else [])
+            for t in tgts:
+                if isinstance(t, ast.Attribute) and isinstance(t.value, ast.Name) and t.value.id in origin:
+                    n_shared += 1
+                    res.ob(f"shared:{f.qual}:{t.attr}")
+                    res.add("C17-SHARED", f.qual, f"store:{t.attr}", f"{f.qual} takes `{t.value.id}` out of `{text(origin[t.value.id])}` (storage that outlives the call) and stores `{t.value.id}.{t.attr}`: every holder of that object — e.g. a template obtained earlier with its own globals — renders differently afterwards, depending on which requests happened in between", f.file, st.lineno)
+    res.ob("shared-objects", 1)
     return res
 
 
